@@ -361,8 +361,9 @@ def d3_reader_writer(ctx):
     sep_r = c.args[0].value
     ctx.check(isinstance(ms, ast.Constant) and ms.value == 1, rd, c, c, "key/value split uses maxsplit=1",
               "key/value split does not use maxsplit=1", key="maxsplit")
-    lst = [x for x in kv if x is not c]
-    lsep_r = lst[0].args[0].value if lst else None
+    lst = [x for x in kv if x not in kv_split]          # the splits without maxsplit: the list-valued entries (the parser may appear on several paths)
+    lseps = {x.args[0].value for x in lst}
+    lsep_r = lseps.pop() if len(lseps) == 1 else (None if not lseps else sorted(lseps))
     # writer
     fs = [j for j in find(wr.node, ast.JoinedStr)]
     wsep = None
@@ -685,7 +686,8 @@ def d7_type_fs(ctx):
 
 def dS_shared(ctx):
     from sa.common import rule_no_shared_mutation
-    rule_no_shared_mutation(ctx, "DS", ['spikeglx.read_meta_data', 'spikeglx.write_meta_data', 'spikeglx._conversion_sample2v_from_meta', 'spikeglx._get_sync_trace_indices_from_meta', 'spikeglx._get_max_int_from_meta', 'spikeglx._get_neuropixel_version_from_meta'],
+    rule_no_shared_mutation(ctx, "DS", ['spikeglx.read_meta_data', 'spikeglx.write_meta_data', 'neuropixel.NP2Reconstructor.write_metadata', 'neuropixel.NP2Converter._writemetadata_ap',
+                                        'neuropixel.NP2Converter._writemetadata_lf', 'spikeglx.Reader.open', 'spikeglx._conversion_sample2v_from_meta', 'spikeglx._get_sync_trace_indices_from_meta', 'spikeglx._get_max_int_from_meta', 'spikeglx._get_neuropixel_version_from_meta'],
                             'metadata-derived values of a later call are those an earlier call modified')
 
 
